@@ -14,18 +14,30 @@
 //	C<i> T<i>    caller i's context is cancelled / its (virtual) time-out fires
 //	X  XA        RPCClient.Close / CloseAddr
 //
-// up to F deviation events (everything except plain submissions and answers). Between two events
-// the goroutines of the client, of gRPC and of the server run freely; the explorer continues only
-// at quiescence (one P; scheduler metrics say that no other goroutine is runnable or in a system
-// call; cross-checked with full stack snapshots). Every execution uses a fresh client, server and
-// listener. Executions are sharded over worker processes (GOMAXPROCS=1 each).
+// with at most F deviation events (everything except plain submissions and answers), in several
+// configurations (callers, connections per store, concurrency limit). Between two events the
+// goroutines of the client, of gRPC and of the server run freely; the explorer continues only at
+// quiescence: one P, the scheduler metrics say that no other goroutine is runnable or in a system
+// call (cross-checked with full stack snapshots), and no dial budget is pending (the budget of
+// waitConnReady is a virtual timer that elapses at quiescence). Every execution uses a fresh
+// client, server and listener. Executions are sharded over worker processes (GOMAXPROCS=1 each).
 //
-// Oracle, after every event: a call completes at most once; a success carries the caller's own
-// payload; an error belongs to an allowed class and names a cause that happened to this call; an
-// event completes exactly the calls it concerns (answer -> that call succeeds; stream failure ->
-// the calls pending on that stream fail, no other; cancel / time-out -> that call; Close -> all);
-// no panic in callers or recovered inside the client's loops. Nothing is decided by wall-clock
-// time: if quiescence cannot be established the execution is inconclusive (exhaustive:false).
+// Oracle, after every event (before/after observation of all callers and of the server's table):
+// a call completes at most once; a success carries the caller's own payload; an error belongs to an
+// allowed class and names a cause that happened to this call; an event completes exactly the calls
+// it concerns (answer -> that call succeeds; stream failure -> the calls pending on that stream
+// fail, no other; cancel / time-out -> that call; Close -> all); Close returns; no panic in callers
+// or recovered inside the client's loops; no loop of the client spins for ever.
+//
+// Nothing is decided by wall-clock time. If quiescence cannot be established, or an execution took
+// longer than 0.5 s (a real timer of gRPC could have fired), the execution is repeated and finally
+// counted as inconclusive (exhaustive:false). A violation is believed only if three re-executions
+// of the same event prefix, each auditing every quiescence with a stack snapshot, violate the same
+// rule. A worker process in which a goroutine of a finished execution keeps running is replaced and
+// its subtree re-done.
+//
+// Files: main.go (processes, reporting, replay), world.go (server, callers, virtual timers,
+// quiescence), explore.go (events, oracle, depth-first enumeration), vctx/ (context shim).
 package main
 
 import (
@@ -37,6 +49,7 @@ import (
 	"os"
 	"os/exec"
 	"runtime"
+	"runtime/debug"
 	"sort"
 	"strconv"
 	"strings"
@@ -133,6 +146,14 @@ type workItem struct {
 
 func workerMain() {
 	runtime.GOMAXPROCS(1)
+	// No concurrent garbage collection inside an execution: mark workers are started by the scheduler
+	// itself (they are not in a run queue) and a goroutine parked in "GC assist wait" is woken by them,
+	// which the run-queue based quiescence test cannot see. The heap is collected between executions.
+	// (The memory limit keeps the collector as a safety valve: it only starts when the heap approaches
+	// the limit, which happens when a loop of the client spins and allocates without end - a state
+	// that is not quiet anyway - and never in the 20 ordinary executions between two collections.)
+	debug.SetGCPercent(-1)
+	debug.SetMemoryLimit(192 << 20)
 	installLogCapture()
 	if v := os.Getenv("VERIF_C18_AUDIT_EVERY"); v != "" {
 		auditEvery, _ = strconv.ParseInt(v, 10, 64)
@@ -180,6 +201,10 @@ func workerMain() {
 		}
 		logMu.Unlock()
 		res.Extra2(runtime.NumGoroutine())
+		if len(mismatchSamples) > 0 {
+			res.Extra["mismatch_samples"] = mismatchSamples
+			mismatchSamples = nil
+		}
 		if poisoned {
 			res.Extra["poisoned"] = []string{poisonedWhy}
 		}
@@ -261,28 +286,29 @@ func (w *worker) stop() {
 // ---------- parent ----------
 
 type totals struct {
-	mu           sync.Mutex
-	executions   int
-	steps        int
-	events       int
-	nontrivial   int
-	diverged     int
-	states       map[uint64]struct{}
-	outcomes     map[string]int
-	inconclusive map[string]int
-	byF          map[string]int
-	kinds        map[string]int
-	maxDepth     int
-	maxBatch     int
-	audits       int64
-	mismatch     int64
-	errorLogs    map[string]bool
-	viol         map[string]violHit
-	violCfg      map[string]Config
-	perCfg       []map[string]any
-	lost         int
-	poisoned     int
-	details      []string
+	mu              sync.Mutex
+	executions      int
+	steps           int
+	events          int
+	nontrivial      int
+	diverged        int
+	states          map[uint64]struct{}
+	outcomes        map[string]int
+	inconclusive    map[string]int
+	byF             map[string]int
+	kinds           map[string]int
+	maxDepth        int
+	maxBatch        int
+	audits          int64
+	mismatch        int64
+	errorLogs       map[string]bool
+	viol            map[string]violHit
+	violCfg         map[string]Config
+	perCfg          []map[string]any
+	lost            int
+	poisoned        int
+	mismatchSamples []string
+	details         []string
 }
 
 func (t *totals) merge(cfg Config, r *subtreeResult) {
@@ -316,6 +342,11 @@ func (t *totals) merge(cfg Config, r *subtreeResult) {
 	}
 	t.audits += r.Audits
 	t.mismatch += r.Mismatch
+	for _, m := range r.Extra["mismatch_samples"] {
+		if len(t.mismatchSamples) < 10 {
+			t.mismatchSamples = append(t.mismatchSamples, m)
+		}
+	}
 	for _, m := range r.Extra["inconclusive_details"] {
 		if len(t.details) < 12 {
 			t.details = append(t.details, m)
@@ -356,11 +387,12 @@ func tierConfigs(thorough bool) []Config {
 	}
 	return []Config{
 		{Callers: 2, MaxF: 4, Conns: 1, Variants: true, Stale: true, AddrX: true},
-		{Callers: 3, MaxF: 3, Conns: 1, Variants: true, Stale: true, AddrX: true},
+		{Callers: 3, MaxF: 4, Conns: 1, Variants: true, Stale: true, AddrX: true},
+		{Callers: 4, MaxF: 3, Conns: 1, Variants: true, Stale: true, AddrX: true},
+		// concurrency limits: later requests queue inside the send loop (priorities matter, batches > 1)
 		{Callers: 3, MaxF: 2, Conns: 1, Limit: 1, Variants: true, Stale: true, AddrX: true},
 		{Callers: 4, MaxF: 2, Conns: 1, Limit: 2, Variants: true, Stale: true, AddrX: false},
-		{Callers: 3, MaxF: 4, Conns: 1, Variants: false, Stale: true, AddrX: false},
-		{Callers: 4, MaxF: 2, Conns: 1, Variants: true, Stale: true, AddrX: true},
+		// two connections per store: round robin over two batch clients, each with its own streams
 		{Callers: 3, MaxF: 3, Conns: 2, Variants: true, Stale: true, AddrX: false},
 	}
 }
@@ -377,7 +409,10 @@ func exploreConfig(cfg Config, tot *totals, samples *ev.Samples, nproc int, dead
 	if !deadline.IsZero() {
 		dl = deadline.Unix()
 	}
-	splitDepth := 3
+	splitDepth := 3 // subtrees are handed to the workers at this depth
+	if cfg.Callers >= 4 {
+		splitDepth = 5 // (the all-default prefixes S0 S1 S2 ... carry most of the tree: split them further)
+	}
 	fr, err := fw.do(workItem{Cfg: cfg, Frontier: splitDepth})
 	fw.stop()
 	if err != nil {
@@ -495,6 +530,8 @@ func doReplay(file string) {
 		os.Exit(2)
 	}
 	runtime.GOMAXPROCS(1)
+	debug.SetGCPercent(-1)
+	debug.SetMemoryLimit(192 << 20)
 	installLogCapture()
 	paranoid = true
 	fails := 0
@@ -600,29 +637,32 @@ func main() {
 		"rule": "stateless depth-first enumeration of all sequences of environment events (submit, answer in any order, batch answer, stale answer, " +
 			"stream drop, cancel, time-out, Close, CloseAddr) with at most F deviation events, each on a fresh RPCClient + gRPC server; callers submit in index order " +
 			"(the index is only a name); states = distinct observation states (caller status and result class, server request table, streams, closed flags); " +
-			"evaluations = events after which the oracle compared before/after observations; non-trivial = execution with a deviation event or >= 2 calls in flight at once",
-		"samples":                   samples.List(),
-		"bounds":                    map[string]any{"configurations": cfgNames, "split_depth": 3, "worker_processes": nproc},
-		"per_configuration":         tot.perCfg,
-		"distinct_outcomes":         len(tot.outcomes),
-		"outcomes":                  tot.outcomes,
-		"executions_by_deviations":  tot.byF,
-		"event_kinds_executed":      tot.kinds,
-		"max_events_in_execution":   tot.maxDepth,
-		"max_requests_in_one_batch": tot.maxBatch,
-		"inconclusive_executions":   inconclusive,
-		"diverged_executions":       tot.diverged,
-		"workers_replaced":          tot.poisoned,
-		"lost_subtrees":             tot.lost,
-		"stack_audits":              tot.audits,
-		"stack_audit_mismatches":    tot.mismatch,
-		"client_error_logs":         elogs,
-		"inconclusive_details":      tot.details,
+			"transitions = events executed on the real client; evaluations = events after which the oracle compared before/after observations; " +
+			"non-trivial = execution with a deviation event or >= 2 calls in flight at once",
+		"samples":                      samples.List(),
+		"bounds":                       map[string]any{"configurations": cfgNames, "split_depth": "3 (5 with 4 callers)", "worker_processes": nproc},
+		"per_configuration":            tot.perCfg,
+		"distinct_outcomes":            len(tot.outcomes),
+		"outcomes":                     tot.outcomes,
+		"executions_by_deviations":     tot.byF,
+		"event_kinds_executed":         tot.kinds,
+		"max_events_in_execution":      tot.maxDepth,
+		"max_requests_in_one_batch":    tot.maxBatch,
+		"inconclusive_executions":      inconclusive,
+		"diverged_executions":          tot.diverged,
+		"workers_replaced":             tot.poisoned,
+		"lost_subtrees":                tot.lost,
+		"stack_audits":                 tot.audits,
+		"stack_audit_mismatch_samples": tot.mismatchSamples,
+		"stack_audit_mismatches":       tot.mismatch,
+		"client_error_logs":            elogs,
+		"inconclusive_details":         tot.details,
 	}, []string{
-		"Level 1 only: interleavings of goroutines inside the client between two environment events are left to the Go scheduler (one P) and are not enumerated; requests are therefore never batched together unless the concurrency limit queues them.",
-		"Quiescence = scheduler metrics (no runnable goroutine, none in a system call) under GOMAXPROCS=1, cross-checked by stack snapshots; gRPC keeps real timers (keepalive >= 10 s, reconnect back-off) that do not fire in millisecond executions.",
-		"The caller's time-out and the send loop's idle timer are virtual (vtime import rewrite of client_batch.go, conn_batch.go, client_async.go; bodies unchanged); a time-out fires only as an explorer event.",
-		"Prompt completion (answer -> call returns, stream failure -> pending calls of that stream fail and no others) is read from the mechanisms named in the property's anchors; every such rule has its own violation key.",
-		"Batch policy 'basic' (no time based batch waiting); the server never misroutes a response to a stream of another kind; stream drops do not break the connection.",
+		"Level 1 only: interleavings of goroutines inside the client between two environment events are left to the Go scheduler (one P) and are not enumerated; requests are batched together only when the concurrency limit queues them (max_requests_in_one_batch).",
+		"Quiescence = scheduler metrics (no runnable goroutine, none in a system call) under GOMAXPROCS=1, cross-checked by stack snapshots; gRPC keeps real timers (keepalive >= 10 s, reconnect back-off >= 100 ms after a broken connection) that do not fire in millisecond executions; executions longer than 0.5 s are discarded and repeated.",
+		"Virtual time: the caller's time-out, the send loop's idle timer (vtime rewrite of client_batch.go, conn_batch.go, client_async.go) and waitConnReady's dial budget (context shim for client_batch.go) fire only when the explorer decides; the dial budget elapses whenever the system is quiet. Function bodies are unchanged.",
+		"Prompt completion (answer -> the call returns; stream failure -> the pending calls of that stream fail and no others) is read from the mechanisms named in the property's anchors, the property sentence itself only promises a return by the time-out; every such rule has its own violation key (stuck/..., spurious-return/...).",
+		"A livelock is reported only on positive evidence that does not depend on time: in 40 consecutive scheduler passes the client's no-available-connection counter moved and stack snapshots show the send loop as the only goroutine that is not blocked.",
+		"Batch policy 'basic' (no time based batch waiting); the server never answers on a stream of another connection or kind; stream drops do not break the connection; errors of waitConnReady (dial budget) count as connection failures.",
 	})
 }
